@@ -110,8 +110,14 @@ func SelfCheck(c *Concrete) error {
 		ip.AddCert(inter)
 		_, verr := leaf.Verify(x509.VerifyOptions{Roots: c.Pool, Intermediates: ip, CurrentTime: c.Clocks["PckCertChain"]})
 		home := w.Get("leafPki")
-		poolHas := map[string]bool{"A": in(w.Get("pool"), "A", "AB"), "B": in(w.Get("pool"), "B", "AB")}[home]
+		poolHas := map[string]bool{"A": in(w.Get("pool"), "A", "AB", "AI"), "B": in(w.Get("pool"), "B", "AB")}[home]
 		wantPath := poolHas && (w.Get("leafRole") != "pck" && w.Get("leafRole") != "wrongCN" || (w.Get("interPki") == home && w.Get("interSlot") == "inter"))
+		if w.Get("pool") == "AI" && home == "A" && in(w.Get("leafRole"), "pck", "wrongCN") {
+			wantPath = true // the pool itself holds the platform CA that issued the leaf, whatever the chain carries in its second block
+		}
+		if w.Get("leafExtCritical") == "yes" {
+			wantPath = false // x509 refuses an unhandled critical extension
+		}
 		if (verr == nil) != wantPath {
 			return fmt.Errorf("x509 path to pool ok=%v (%v), want %v", verr == nil, verr, wantPath)
 		}
@@ -147,6 +153,13 @@ func SelfCheck(c *Concrete) error {
 		sc, err := x509.ParseCertificate(blk.Bytes)
 		if err != nil {
 			return err
+		}
+		if in(w.Get(d.alter), "sigMissing", "sigNull", "sigEmpty") { // there is no signature to check: the member must be absent / null / empty
+			raw, present := m["signature"]
+			if (w.Get(d.alter) == "sigMissing") == present || (present && w.Get(d.alter) == "sigNull" && string(raw) != "null") || (present && w.Get(d.alter) == "sigEmpty" && string(raw) != `""`) {
+				return fmt.Errorf("%s: signature member is %q, want it %s", d.name, raw, w.Get(d.alter))
+			}
+			continue
 		}
 		var sigHex string
 		if err := json.Unmarshal(m["signature"], &sigHex); err != nil {
